@@ -71,6 +71,9 @@ def diag_class(text):
     """Stable class of a tars2go diagnostic: the last non-log line, without file names, line numbers and identifiers."""
     lines = [l for l in text.splitlines() if l.strip() and not re.match(r"^\d{4}/\d\d/\d\d ", l)]
     if not lines:
+        lines = [re.sub(r"^\d{4}/\d\d/\d\d \d\d:\d\d:\d\d ", "", l) for l in text.splitlines() if l.strip()][-1:]
+        lines = [re.sub(r"\S*/\S*|\S+\.tars\S*", "", l) for l in lines]
+    if not lines:
         return "no-diagnostic"
     l = lines[-1]
     l = re.sub(r"^\S+\.tars: ?\d+\.\s*", "", l)
@@ -80,13 +83,14 @@ def diag_class(text):
 
 
 def go_error_class(text):
-    """Stable class of the first Go compile error: lower-case words of the message."""
+    """Stable class of the first Go compile error: the plain lower-case words of the message (identifiers, types and
+    numbers dropped)."""
     for l in text.splitlines():
         m = re.match(r"^\S+\.go:\d+:\d+: (.*)$", l)
         if m:
-            msg = re.sub(r"\([^)]*\)", "", m.group(1))
-            words = [w for w in re.split(r"[^A-Za-z]+", msg) if w and w.islower() and len(w) > 1]
-            return "-".join(words[:7]) or "compile-error"
+            words = [w.strip(":,;()") for w in m.group(1).replace("(", " ").replace(")", " ").split()]
+            words = [w for w in words if re.match(r"^[a-z]{2,}$", w)]
+            return "-".join(words[:8]) or "compile-error"
     return "compile-error"
 
 
@@ -253,7 +257,7 @@ def completions(nodes):
     return graph, dist, path
 
 
-def plan_token_tests(alphabet, nodes, cut_tests):
+def plan_token_tests(alphabet, nodes, cut_tests, cut_sample=None):
     """One test per transition of the automaton.  Each test: dict(toks=[...], steps=[(tok, config)], what=...)."""
     graph, dist, path = completions(nodes)
     tests, seen = [], set()
@@ -281,7 +285,7 @@ def plan_token_tests(alphabet, nodes, cut_tests):
         for t in sorted(alphabet):
             tr = by.get(t)
             if tr is None:
-                if cut_tests:
+                if cut_tests and (cut_sample is None or cut_sample(c, t)):
                     add(pre + [(t, c)], "hard-cut")
                 add(pre + [(t, c)] + own, "hard-insert")
             elif tr["kind"] == "ok":
@@ -299,25 +303,49 @@ def plan_token_tests(alphabet, nodes, cut_tests):
     return tests, nocomp
 
 
-def run_inputs(ctx, exe, h, inputs, idl_dir, out_root, timeout, par=None):
-    """inputs: [(id, bytes)]; writes <idl_dir>/<id>.tars, runs the binary into <out_root>/<id>/ in parallel.
+def run_inputs(ctx, exe, h, inputs, idl_dir, out_root, timeout, par=None, tag="w"):
+    """inputs: [(id, bytes)]; writes <idl_dir>/<id>.tars and runs the binary into <out_root>/<id>/, spread over `par`
+    shell workers (a Python thread per run is an order of magnitude slower).  `timeout -s KILL` bounds each run.
     Returns {id: dict(rc, timeout, secs, out, files)}."""
     os.makedirs(os.path.join(h, idl_dir), exist_ok=True)
-    res = {}
-
-    def one(item):
-        tid, data = item
-        p = os.path.join(h, idl_dir, tid + ".tars")
-        with open(p, "wb") as f:
+    logd = os.path.join(h, out_root + "-log")
+    os.makedirs(logd, exist_ok=True)
+    par = max(1, min(par or ctx.ncpu, len(inputs)))
+    scripts = [[] for _ in range(par)]
+    for n, (tid, data) in enumerate(inputs):
+        with open(os.path.join(h, idl_dir, tid + ".tars"), "wb") as f:
             f.write(data)
-        od = os.path.join(out_root, tid)
-        rc, out, secs, to = run_tool(exe, ["-outdir=" + od + "/", "-module=verifharness", os.path.join(idl_dir, tid + ".tars")], h, timeout)
-        files = sorted(glob.glob(os.path.join(h, od, "*", "*.go"))) if rc == 0 else []
-        return tid, {"rc": rc, "timeout": to, "secs": round(secs, 3), "out": out[-600:], "files": files}
-
-    with ThreadPoolExecutor(max_workers=par or ctx.ncpu) as ex:
-        for tid, r in ex.map(one, inputs):
-            res[tid] = r
+        scripts[n % par].append(
+            's=$EPOCHREALTIME; timeout -s KILL %d "$EXE" -outdir=%s/%s/ -module=verifharness %s/%s.tars > %s/%s.txt 2>&1; '
+            'echo "%s $? $s $EPOCHREALTIME" >> %s/%s%d.log' % (timeout, out_root, tid, idl_dir, tid, logd, tid, tid, logd, tag, n % par))
+    procs = []
+    env = env_go({"EXE": exe})
+    for i, lines in enumerate(scripts):
+        sp = os.path.join(logd, "%s%d.sh" % (tag, i))
+        open(sp, "w").write("\n".join(lines) + "\n")
+        lp = os.path.join(logd, "%s%d.log" % (tag, i))
+        if os.path.exists(lp):
+            os.remove(lp)
+        procs.append(subprocess.Popen(["bash", sp], cwd=h, env=env, stdout=subprocess.DEVNULL, stderr=subprocess.DEVNULL))
+    for pr in procs:
+        pr.wait()
+    res = {}
+    for i in range(par):
+        lp = os.path.join(logd, "%s%d.log" % (tag, i))
+        if not os.path.exists(lp):
+            continue
+        for line in open(lp):
+            tid, rc, t0, t1 = line.split()
+            secs = float(t1) - float(t0)
+            to = int(rc) == 137 and secs >= timeout - 0.2
+            try:
+                out = open(os.path.join(logd, tid + ".txt"), "rb").read()[-600:].decode("utf-8", "replace")
+            except OSError:
+                out = ""
+            files = sorted(glob.glob(os.path.join(h, out_root, tid, "*", "*.go"))) if int(rc) == 0 else []
+            res[tid] = {"rc": -1 if to else int(rc), "timeout": to, "secs": round(secs, 3), "out": out, "files": files}
+    if len(res) != len(inputs):
+        raise Inconclusive("runner lost %d of %d runs" % (len(inputs) - len(res), len(inputs)))
     return res
 
 
@@ -402,6 +430,24 @@ def judge_tokens(ctx, records, name, shards=8):
     return bad, lenient, tot
 
 
+CTL_REGION = [("E_", "enum"), ("SM_", "struct-body"), ("S_", "struct"), ("IF_", "interface-body"), ("IP_", "interface-body"), ("I_", "interface"),
+              ("C_", "const"), ("K_", "key"), ("M_", "module"), ("F", "file"), ("T", "type")]
+
+
+def orecs_region(info):
+    for pre, name in CTL_REGION:
+        if info["ctl"].startswith(pre):
+            return name
+    return "other"
+
+
+RAW_CLASSES = [(r"cannot use .* constant\) as .* value in (assignment|constant declaration)", "literal-type-mismatch"),
+               (r"constant .* overflows|truncated", "literal-type-mismatch"),
+               (r"invalid map key type", "container-as-map-key"),
+               (r"invalid array length", "array-length-negative"),
+               (r"cannot use st\.\w+ \(variable of type \[\d+\]u?int8\)", "fixed-array-of-bytes")]
+
+
 def tokname(t):
     return PUNCT.get(t, t)
 
@@ -410,13 +456,22 @@ def token_signature(info, rec, res):
     v = info["v"]
     if v == "hang":
         if rec["cls"] == "tok":
-            return "C16:hang:%s-inside-%s" % (tokname(info["t"]), info["region"])
+            # a run that never ends was still reading when the input ended: when the first token outside the language is the
+            # last one (or the end itself) the class is "end of input inside <construct>"
+            t = "eof" if info["at"] >= len(rec["toks"]) else tokname(info["t"])
+            return "C16:hang:%s-inside-%s" % (t, info["region"])
         return "C16:hang:eof-inside-%s" % idlgen.open_construct(rec["_data"])
     if v == "accepted-but-does-not-compile":
         if rec["cls"] != "tok":
-            return "C16:accepted-but-does-not-compile:raw:%s" % go_error_class(res["cerr"])
+            # no reference class for raw input: the compiler's complaint names it; complaints that are typical of a class
+            # the automaton knows are filed under that class
+            ec = go_error_class(res["cerr"])
+            for pat, cls in RAW_CLASSES:
+                if re.search(pat, res["cerr"].splitlines()[0] if res["cerr"] else ""):
+                    return "C16:accepted-but-does-not-compile:%s" % cls
+            return "C16:accepted-but-does-not-compile:raw:%s" % ec
         if info["kind"] == "soft":
-            return "C16:accepted-but-does-not-compile:%s" % info["why"].replace("literal-mismatch:", "literal-")
+            return "C16:accepted-but-does-not-compile:%s" % info["why"]
         return "C16:accepted-but-does-not-compile:unexpected-%s-at-%s" % (tokname(info["t"]), info["ctl"])
     if v == "valid-rejected":
         return "C16:valid-rejected:%s" % diag_class(res["out"])
@@ -425,10 +480,42 @@ def token_signature(info, rec, res):
     return "C16:%s" % v
 
 
-def clause2(ctx, exe, valid_texts):
+def settle_timeouts(ctx, exe, h, inputs, results, idl_dir, out_root):
+    """Machine load must not look like a hang: some of the timeouts are re-run on their own; if any of those then
+    terminates, all of them are re-run."""
+    touts = sorted(tid for tid, r in results.items() if r["timeout"])
+    if touts:
+        byid = dict(inputs)
+        again = run_inputs(ctx, exe, h, [(tid, byid[tid]) for tid in touts[:4]], idl_dir, out_root, 5, par=4, tag="again")
+        if any(not r["timeout"] for r in again.values()):
+            again = run_inputs(ctx, exe, h, [(tid, byid[tid]) for tid in touts], idl_dir, out_root, 5, par=4, tag="again2")
+        results.update(again)
+    return len(touts)
+
+
+def report_bad(ctx, bad, recs, results, inputs):
+    byid = dict(inputs)
+    for idx, info in sorted(bad.items()):
+        rec, res = recs[idx], results[recs[idx]["id"]]
+        if info["v"] == "beyond":
+            raise Inconclusive("a token test exceeds the oracle's stack bound: %s" % rec["toks"])
+        sig = token_signature(info, rec, res)
+        text = byid[rec["id"]]
+        ctx.violate(sig, "%s: input %r -> exit %s%s %s" % (info["v"], text[:160].decode("utf-8", "replace"), res["rc"],
+                                                            " (no exit within 5 s)" if res["timeout"] else "",
+                                                            (res["cerr"] or res["out"])[-200:].replace("\n", " | ")),
+                    {"input": text.decode("utf-8", "replace"), "tokens": rec["toks"], "class": rec["what"], "oracle": info,
+                     "exit": res["rc"], "output": res["out"], "compile_error": res["cerr"]})
+
+
+def clause2(ctx, exe):
+    """One run of the binary per transition of the automaton; TLC judges.  Returns (evidence, texts of accepted valid inputs)."""
     depth = ctx.pick(1, 3)
     alphabet, nodes, rgen = explore(ctx, depth, 80, False, "gen-configs")
-    tests, nocomp = plan_token_tests(alphabet, nodes, cut_tests=True)
+    # quick tier: "prefix + non-viable token + end of input" for a seeded part of the pairs (every pair is still run with
+    # the prefix's completion after the token, and every prefix with end of input right after it)
+    crng = random.Random(ctx.seed * 31 + 5)
+    tests, nocomp = plan_token_tests(alphabet, nodes, cut_tests=True, cut_sample=(lambda c, t: crng.random() < 0.08) if ctx.quick else None)
     nconf = len([n for n in nodes if n["soft"] == 0])
     ntrans = sum(len(n["trans"]) for n in nodes if n["soft"] == 0)
     gen_states, gen_trans = rgen.distinct, rgen.generated
@@ -445,8 +532,8 @@ def clause2(ctx, exe, valid_texts):
     if nocomp:
         raise Inconclusive("%d configurations of the automaton have no completion in the explored graph" % nocomp)
     h = gobuild.stage_harness(ctx)
+    os.makedirs(os.path.join(h, "tokidl"), exist_ok=True)
     for name, text in (("pre.tars", idlgen.PRELUDE), ("inc1.tars", idlgen.INC[1]), ("inc2.tars", idlgen.INC[2])):
-        os.makedirs(os.path.join(h, "tokidl"), exist_ok=True)
         open(os.path.join(h, "tokidl", name), "w").write(text)
     inputs, recs = [], []
     for i, t in enumerate(tests):
@@ -456,52 +543,31 @@ def clause2(ctx, exe, valid_texts):
         t["text"] = text
         inputs.append((tid, text.encode("utf-8")))
         recs.append({"id": tid, "cls": "tok", "toks": t["toks"], "what": t["what"]})
-    tok_texts = [t["text"] for t in tests if t["what"] == "viable"]
-    # raw inputs: random bytes, token soup, cut / mutated valid programs
-    rng = random.Random(ctx.seed * 7919 + 16)
-    nraw = ctx.pick(3000, 100000)
-    pool = (valid_texts or []) + tok_texts[:: max(1, len(tok_texts) // 200)]
-    for j, (cls, data) in enumerate(idlgen.raw_inputs(rng, nraw, pool)):
-        tid = "r%06d" % j
-        inputs.append((tid, data))
-        recs.append({"id": tid, "cls": "raw", "toks": [], "what": cls, "_data": data})
-    ctx.log("clause 2: %d configurations, %d token tests, %d raw inputs" % (nconf, len(tests), nraw))
+    ctx.log("clause 2: %d configurations, %d token tests" % (nconf, len(tests)))
     t0 = time.time()
     results = run_inputs(ctx, exe, h, inputs, "tokidl", "tok", 5)
-    ctx.log("clause 2: binary ran %d times in %.1fs" % (len(inputs), time.time() - t0))
-    # a timeout is re-run alone (machine load must not look like a hang)
-    for tid, r in results.items():
-        if r["timeout"]:
-            again = run_inputs(ctx, exe, h, [(tid, dict(inputs)[tid])], "tokidl", "tok", 5, par=1)[tid]
-            results[tid] = again
+    nto = settle_timeouts(ctx, exe, h, inputs, results, "tokidl", "tok")
+    ctx.log("clause 2: binary ran %d times in %.1fs (%d timeouts re-run)" % (len(inputs), time.time() - t0, nto))
     t0 = time.time()
     nrep = compile_outputs(ctx, h, "tok", results)
     ctx.log("clause 2: compiled %d distinct outputs in %.1fs" % (nrep, time.time() - t0))
-    orecs = []
-    for r in recs:
-        x = results[r["id"]]
-        orecs.append({"id": r["id"], "cls": r["cls"], "toks": r["toks"], "rc": x["rc"], "timeout": x["timeout"], "compiled": x["compiled"]})
+    orecs = [{"id": r["id"], "cls": r["cls"], "toks": r["toks"], "rc": results[r["id"]]["rc"], "timeout": results[r["id"]]["timeout"],
+              "compiled": results[r["id"]]["compiled"]} for r in recs]
     bad, lenient, tot = judge_tokens(ctx, orecs, "tokoracle", shards=ctx.pick(8, 12))
-    for idx, info in sorted(bad.items()):
-        rec, res = recs[idx], results[recs[idx]["id"]]
-        if info["v"] == "beyond":
-            raise Inconclusive("a token test exceeds the oracle's stack bound: %s" % rec["toks"])
-        sig = token_signature(info, rec, res)
-        text = dict(inputs)[rec["id"]]
-        ctx.violate(sig, "%s: input %r -> exit %s%s %s" % (info["v"], text[:160].decode("utf-8", "replace"), res["rc"],
-                                                            " (no exit within 5 s)" if res["timeout"] else "",
-                                                            (res["cerr"] or res["out"])[-200:].replace("\n", " | ")),
-                    {"input": text.decode("utf-8", "replace"), "tokens": rec["toks"], "class": rec["what"], "oracle": info,
-                     "exit": res["rc"], "output": res["out"], "compile_error": res["cerr"]})
+    report_bad(ctx, bad, recs, results, inputs)
     # lenient acceptances: observations, grouped by context
-    len_classes = {}
-    for idx, info in lenient.items():
-        k = info["why"] or "unexpected-%s-at-%s" % (tokname(info["t"]), info["ctl"])
+    len_classes, len_examples = {}, {}
+    byid = dict(inputs)
+    for idx, info in sorted(lenient.items()):
+        k = info["why"] or "unexpected-token-inside-%s" % orecs_region(info)
         len_classes[k] = len_classes.get(k, 0) + 1
+        len_examples.setdefault(k, [])
+        if len(len_examples[k]) < 2:
+            len_examples[k].append(byid[recs[idx]["id"]].decode("utf-8", "replace")[:200])
     # binding self-test: falsified observations must be rejected, exactly those
-    good = [i for i, r in enumerate(orecs) if i not in bad and r["cls"] == "tok"]
-    valid_ok = [i for i in good if results[orecs[i]["id"]]["rc"] == 0 and i not in lenient][:3]
-    invalid_rej = [i for i in good if results[orecs[i]["id"]]["rc"] != 0][:3]
+    good = [i for i, r in enumerate(orecs) if i not in bad]
+    valid_ok = [i for i in good if orecs[i]["rc"] == 0 and i not in lenient][:3]
+    invalid_rej = [i for i in good if orecs[i]["rc"] != 0][:3]
     if len(valid_ok) < 3 or len(invalid_rej) < 3:
         raise Inconclusive("token self-test: not enough accepted/rejected records")
     sample = [json.loads(json.dumps(orecs[i])) for i in (valid_ok + invalid_rej)]
@@ -516,16 +582,48 @@ def clause2(ctx, exe, valid_texts):
     for r in recs:
         by_what[r["what"]] = by_what.get(r["what"], 0) + 1
     ex = next((t for t in tests if t["what"] == "viable" and len(t["toks"]) > 12), tests[0])
-    return {
+    ok_texts = [t["text"] for i, t in enumerate(tests) if t["what"] == "viable" and i not in bad and orecs[i]["rc"] == 0]
+    ev = {
         "configurations": nconf, "transitions_of_automaton": ntrans, "prefixes_enumerated": nprefix, "stack_depth": depth,
-        "token_tests": len(tests), "raw_inputs": nraw, "tests_by_kind": by_what,
+        "token_tests": len(tests), "tests_by_kind": by_what,
         "runs": len(inputs), "in_language": tot["nvalid"], "accepted_outputs_compiled": nrep,
-        "lenient_acceptances": sum(len_classes.values()), "lenient_classes": dict(sorted(len_classes.items(), key=lambda x: -x[1])[:40]),
+        "lenient_acceptances": sum(len_classes.values()), "lenient_classes": dict(sorted(len_classes.items(), key=lambda x: -x[1])),
+        "lenient_examples": len_examples,
         "rejected_by_oracle": len(bad), "oracle_states": tot["states"], "oracle_transitions": tot["generated"],
         "gen_states": gen_states, "gen_transitions": gen_trans,
         "selftest_falsified_observations": {"records": len(sample), "corrupted": 4, "rejected_exactly_those": True},
         "sample": {"tokens": ex["toks"], "text": ex["text"], "exit": results[recs[tests.index(ex)]["id"]]["rc"]},
     }
+    return ev, ok_texts
+
+
+def clause2_raw(ctx, exe, corpus):
+    """Inputs without a reference class: random bytes, token soup, valid programs cut or with characters / tokens changed.
+    Judged by the same oracle (class "raw"): the binary terminates, and exit 0 comes with output that compiles."""
+    h = gobuild.stage_harness(ctx)
+    rng = random.Random(ctx.seed * 7919 + 16)
+    nraw = ctx.pick(2000, 100000)
+    inputs, recs = [], []
+    for j, (cls, data) in enumerate(idlgen.raw_inputs(rng, nraw, corpus)):
+        tid = "r%06d" % j
+        inputs.append((tid, data))
+        recs.append({"id": tid, "cls": "raw", "toks": [], "what": cls, "_data": data})
+    t0 = time.time()
+    results = run_inputs(ctx, exe, h, inputs, "tokidl", "raw", 5, tag="raw")
+    nto = settle_timeouts(ctx, exe, h, inputs, results, "tokidl", "raw")
+    nrep = compile_outputs(ctx, h, "raw", results)
+    ctx.log("clause 2: %d raw inputs run and %d distinct outputs compiled in %.1fs" % (nraw, nrep, time.time() - t0))
+    orecs = [{"id": r["id"], "cls": "raw", "toks": [], "rc": results[r["id"]]["rc"], "timeout": results[r["id"]]["timeout"],
+              "compiled": results[r["id"]]["compiled"]} for r in recs]
+    bad, _, tot = judge_tokens(ctx, orecs, "raworacle", shards=ctx.pick(2, 8))
+    report_bad(ctx, bad, recs, results, inputs)
+    by_what, acc = {}, {}
+    for r in recs:
+        by_what[r["what"]] = by_what.get(r["what"], 0) + 1
+        if results[r["id"]]["rc"] == 0:
+            acc[r["what"]] = acc.get(r["what"], 0) + 1
+    return {"raw_inputs": nraw, "by_kind": by_what, "exit_0_by_kind": acc, "corpus_texts": len(corpus), "accepted_outputs_compiled": nrep,
+            "rejected_by_oracle": len(bad), "oracle_states": tot["states"], "oracle_transitions": tot["generated"]}
 
 
 # =============================================================================================== clause 1
@@ -542,39 +640,12 @@ def sample_programs(ctx, n, seed, tdepth):
 
 
 def write_program(d, pt):
+    os.makedirs(d, exist_ok=True)
     for mod in ("A", "B"):
         with open(os.path.join(d, pt.fname[mod]), "w", newline="") as f:
             f.write(pt.module_text(mod))
     with open(os.path.join(d, "P%dx.tars" % pt.k), "w") as f:
         f.write(pt.extras_text())
-
-
-def shrink(ctx, exe, prog, k, seed, still_fails):
-    """Greedy removal of members / parameters / functions / constants while the failure persists."""
-    cur = prog
-    changed = True
-    rounds = 0
-    while changed and rounds < 4:
-        changed = False
-        rounds += 1
-        for kind, idx in idlgen.elements(cur):
-            try:
-                cand = idlgen.drop_element(cur, kind, idx)
-            except (IndexError, KeyError):
-                continue
-            if still_fails(cand):
-                cur = cand
-                changed = True
-                break
-    return cur
-
-
-def describe(prog, k, seed):
-    pt = idlgen.ProgramText(prog, k, random.Random(seed))
-    pt.module_text("A")
-    pt.module_text("B")
-    fs = sorted(set(f for _, f in pt.features if not f.startswith("enum:")))
-    return "+".join(fs)[:120] or "empty"
 
 
 KNOWN_CODEC = None
@@ -594,172 +665,337 @@ def codec_signatures(why, r, schema):
         pc = codecfam.panic_class(r["panic"])
         site = r["panic"].rsplit("@", 1)[-1] if "@" in r["panic"] else "generated-decoder"
         sigs.append("C06:panic:%s:%s:%s" % (r["cls"], r.get("note", ""), pc))
-        kind = "fatal" if r["panic"].startswith("fatal") else "panic"
-        sigs.append("C05:%s:%s:%s" % (kind, pc, site))
+        sigs.append("C05:%s:%s:%s" % ("fatal" if r["panic"].startswith("fatal") else "panic", pc, site))
         sigs.append("C05:fatal:%s:%s" % (pc, site))
     elif why == "alloc":
         sigs.append("C05:fatal:out-of-memory:generated-decoder")
     else:
         sigs.append("C06:%s:%s:%s" % (why, r["cls"], r.get("note", "")))
-    if r["k"] == "decr" and why == "wrong-value" and r.get("fok") and r["ok"]:
-        diff = codecfam.members_differing(schema, r["s"], r["dec"], r["fdec"])
-        if diff and all(m is not None and not m["req"] and not m["hasdef"] for _, m in diff):
-            sigs.append("C04:reuse-stale:absent-optional-without-declared-default")
+    if r["k"] == "decr" and why == "wrong-value" and r.get("fok") and r["ok"] and stale_only(schema, r["s"], r["dec"], r["fdec"]):
+        sigs.append("C04:reuse-stale:absent-optional-without-declared-default")
     return sigs
 
 
-def batch(ctx, exe, bi, progs, flags, seed):
-    """One batch of programs through generator, compiler, driver and oracles."""
-    b = copy.copy(ctx)
-    b.work = ctx.sub("batch%d" % bi)
-    os.makedirs(os.path.join(b.work, "bin"), exist_ok=True)
-    shutil.copy(exe, os.path.join(b.work, "bin", "tars2go"))
-    h = gobuild.stage_harness(b)
-    idl = os.path.join(h, "pidl")
-    os.makedirs(idl, exist_ok=True)
-    pts = {}
-    for i, p in enumerate(progs):
-        k = bi * 1000 + i
-        pts[k] = (p, idlgen.ProgramText(p, k, random.Random(seed * 100003 + k)))
-        write_program(idl, pts[k][1])
-    ev = {"programs": len(progs), "rejected": 0, "not_compiling": 0, "flags": flags}
+def stale_only(schema, sname, a, e):
+    """a: decoded into a reused struct, e: the same bytes decoded into a fresh one.  True when every difference lies in an
+    optional member without declared default that is absent from the input (the fresh decode shows its default)."""
+    S = schema["structs"][sname]
+    if not isinstance(a, list) or not isinstance(e, list) or len(a) != len(S) or len(e) != len(S):
+        return False
 
-    def gen_one(k, prog=None, sub="triage"):
-        """run the binary on one program alone (main file + extras); returns (rc, out, secs, timed_out, dir)"""
-        if prog is None:
-            d, pt = idl, pts[k][1]
-        else:
-            d = os.path.join(h, "shrink", "%d_%d" % (k, random.getrandbits(30)))
-            os.makedirs(d, exist_ok=True)
-            pt = idlgen.ProgramText(prog, k, random.Random(seed * 100003 + k))
-            write_program(d, pt)
-        od = os.path.join(h, sub, "p%d_%d" % (k, random.getrandbits(30)))
-        rc, out, secs, to = run_tool(exe, ["-outdir=" + os.path.relpath(od, h) + "/", "-module=verifharness"] + flags +
-                                     [os.path.relpath(os.path.join(d, pt.fname["B"]), h), os.path.relpath(os.path.join(d, "P%dx.tars" % k), h)], h, 10)
-        return rc, out, secs, to, od
+    def walk(ty, x, y):
+        if x == y:
+            return True
+        if ty["k"] == "struct":
+            return stale_only(schema, ty["name"], x, y)
+        if ty["k"] in ("vec", "arr") and isinstance(x, list) and isinstance(y, list) and len(x) == len(y):
+            return all(walk(ty["el"], xi, yi) for xi, yi in zip(x, y))
+        return False
 
-    # ---- the generator terminates with exit 0 on every program
-    alive = []
-    slowest = 0.0
-    with ThreadPoolExecutor(max_workers=8) as ex:
-        tri = list(ex.map(lambda k: (k, gen_one(k)), sorted(pts)))
-    for k, (rc, out, secs, to, od) in tri:
-        slowest = max(slowest, secs)
-        if to:
-            ctx.violate("C16:hang:valid-program", "tars2go does not terminate within 10 s on a valid program",
-                        {"files": {m: pts[k][1].module_text(m) for m in ("A", "B")}, "program": pts[k][0]})
-            ev["rejected"] += 1
-        elif rc != 0:
-            dc = diag_class(out)
-            small = shrink(ctx, exe, pts[k][0], k, seed, lambda cand: (lambda r: r[0] != 0 and not r[3] and diag_class(r[1]) == dc)(gen_one(k, cand, "shrink-out")))
-            spt = idlgen.ProgramText(small, k, random.Random(seed * 100003 + k))
-            ctx.violate("C16:valid-rejected:%s:%s" % (dc, describe(small, k, seed)),
-                        "tars2go rejects a valid program: %s" % out.strip().splitlines()[-1][:200],
-                        {"minimal_files": {spt.fname[m]: spt.module_text(m) for m in ("A", "B")}, "abstract_program": small, "output": out[-500:]})
-            ev["rejected"] += 1
-        else:
-            alive.append(k)
-    shutil.rmtree(os.path.join(h, "triage"), ignore_errors=True)
-    shutil.rmtree(os.path.join(h, "shrink-out"), ignore_errors=True)
-
-    # ---- one generator run + one go build for the batch; programs whose code does not compile are reported and dropped
-    schema = None
-    for attempt in range(4):
-        if not alive:
-            break
-        shutil.rmtree(os.path.join(h, "gen"), ignore_errors=True)
-        files = []
-        for k in alive:
-            pt = pts[k][1]
-            files += [os.path.join(idl, pt.fname["B"])] if (k % 2) else [os.path.join(idl, pt.fname["A"]), os.path.join(idl, pt.fname["B"])]
-        t0 = time.time()
-        _, schema = codecgen.stage(b, idl_files=files, with_res=False, extra_tars2go=flags)
-        ev["batch_generate_s"] = round(time.time() - t0, 2)
-        if ev["batch_generate_s"] > 10:
-            ctx.violate("C16:slow:batch", "tars2go needed %.1f s for a batch of %d valid programs" % (ev["batch_generate_s"], len(alive)), {})
-        rc, so, se = gobuild.tars2go(b, [os.path.join(idl, "P%dx.tars" % k) for k in alive], "gen", "verifharness", cwd=h, timeout=30, extra=flags)
-        if rc != 0:
-            raise Inconclusive("tars2go failed on the extras files after passing them one by one:\n%s" % (so + se)[-1500:])
-        t0 = time.time()
-        ok, badpk = go_build(h, "./gen/...")
-        ev["go_build_s"] = round(time.time() - t0, 2)
-        if ok:
-            break
-        dropped = set()
-        for pkg, err in badpk.items():
-            m = re.search(r"(\d+)$", os.path.basename(pkg))
-            k = int(m.group(1)) if m else None
-            if k not in pts or k in dropped:
-                raise Inconclusive("cannot attribute a compile error to a program: %s\n%s" % (pkg, err))
-            dropped.add(k)
-            ec = go_error_class(err)
-
-            def still(cand, k=k, ec=ec):
-                rc, out, secs, to, od = gen_one(k, cand, "shrink-out")
-                if rc != 0 or to:
-                    return False
-                ok2, bad2 = go_build(h, "./" + os.path.relpath(od, h) + "/...")
-                shutil.rmtree(od, ignore_errors=True)
-                return (not ok2) and any(go_error_class(e) == ec for e in bad2.values())
-
-            small = shrink(ctx, exe, pts[k][0], k, seed, still) if ctx.pick(True, True) else pts[k][0]
-            spt = idlgen.ProgramText(small, k, random.Random(seed * 100003 + k))
-            ctx.violate("C16:valid-does-not-compile:%s:%s" % (ec, describe(small, k, seed)),
-                        "the Go code tars2go emits for a valid program does not compile: %s" % err.splitlines()[0][:240],
-                        {"minimal_files": {spt.fname[m]: spt.module_text(m) for m in ("A", "B")}, "abstract_program": small, "go_errors": err})
-            ev["not_compiling"] += 1
-        alive = [k for k in alive if k not in dropped]
-        shutil.rmtree(os.path.join(h, "shrink-out"), ignore_errors=True)
-        shutil.rmtree(os.path.join(h, "shrink"), ignore_errors=True)
-    else:
-        raise Inconclusive("batch %d still does not compile after dropping the failing programs" % bi)
-    ev["programs_judged"] = len(alive)
-    if not alive:
-        return ev, None
-    nstruct = len(schema["order"])
-    nfunc = sum(len(v) for v in schema["interfaces"].values())
-    ev.update({"struct_types": nstruct, "interfaces": len(schema["interfaces"]), "functions_compiled": nfunc})
-
-    # ---- the generated codecs against the IDL's meaning
-    drv = gobuild.build(b, "codecdrive")
-    nsh = 6
-    per = ctx.pick(6, 25)
-    d, last = codecfam.run_driver(b, drv, "structs", "enc", ["-shards", str(nsh), "-per", str(per)])
-    n_enc = int(last.split()[0])
-    shards = sorted(glob.glob(os.path.join(d, "enc_*.ndjson")))
-    extra = {"schemas.json": codecgen.schemas_json(schema)}
-    res = oracle.judge(b, "TarsSchema", "Oracle_Schema", "Oracle.cfg", shards, par=nsh, timeout=3000, extra_files=extra,
-                       deps=codecfam.DEPS, name="schema%d" % bi)
-    if res["total"] != n_enc:
-        raise Inconclusive("schema oracle judged %d of %d records" % (res["total"], n_enc))
-    for p, i, r in res["bad"]:
-        kind = "panic" if r.get("panic") else ("write-error" if r["werr"] else ("decode-error" if not r["dec_ok"] else "mismatch"))
-        ctx.violate("C16:generated-codec:%s:%s:%s" % (kind, r["k"], struct_shape(schema, r["s"])),
-                    "generated codec of %s: encoding is not the well-formed encoding of the value, or the generated decoder does not "
-                    "return it (%s)" % (r["s"], kind), {"record": r, "idl": idl_of(pts, r["s"])})
-    d2, last2 = codecfam.run_driver(b, drv, "mutants", "mut", ["-shards", str(nsh), "-per", str(ctx.pick(1, 3)),
-                                                                "-classes", "extra,absent,prefix,inflate,subst", "-cap", str(ctx.pick(3, 6))])
-    mshards = sorted(glob.glob(os.path.join(d2, "mut_*.ndjson")))
-    total, bad, states, gen = codecfam.judge_dec(b, schema, mshards, "dec%d" % bi, par=nsh)
-    known_seen = {}
-    for why, r in bad:
-        if why == "reference-vs-expected":
-            raise Inconclusive("reference decoder disagrees with the value the harness built (%s %s)" % (r["cls"], r["s"]))
-        sigs = codec_signatures(why, r, schema)
-        hit = [s for s in sigs if s in known_codec_open()]
-        if hit or (why == "alloc") or (why == "panic" and codecfam.panic_class(r["panic"]) == "out-of-memory"):
-            known_seen[hit[0] if hit else "C05:allocation"] = known_seen.get(hit[0] if hit else "C05:allocation", 0) + 1
+    for m, x, y in zip(S, a, e):
+        if x == y:
             continue
-        if r["k"] == "decr" and why == "wrong-value" and not r.get("fok"):
-            continue        # the fresh decode of the same bytes is already judged by its own record
-        ctx.violate("C16:generated-codec:%s:%s%s" % (why, r["cls"], ":reused" if r["k"] == "decr" else ""),
-                    "%s input for generated struct %s (%s): real decoder %s, reference: %s"
-                    % (r["cls"], r["s"], r.get("note", ""), "ok" if r["ok"] else "error/panic " + r["panic"][:80], why),
-                    {"record": r, "candidate_signatures": sigs, "idl": idl_of(pts, r["s"])})
-    ev.update({"enc_records": res["total"], "dec_records": total, "oracle_states": res["states"] + states,
-               "oracle_transitions": res["generated"] + gen, "known_codec_findings_seen": known_seen,
-               "mutant_classes": last2.split(" ", 3)[3] if len(last2.split(" ", 3)) > 3 else ""})
-    return ev, {"ctx": b, "schema": schema, "shards": shards, "extra": extra, "pts": pts, "alive": alive}
+        if not m["req"] and not m["hasdef"] and y == m["def"]:
+            continue
+        if not walk(m["ty"], x, y):
+            return False
+    return True
+
+
+class Batch:
+    """One batch of programs through generator, compiler, driver and oracles."""
+
+    def __init__(self, ctx, exe, bi, progs, flags, seed):
+        self.ctx, self.exe, self.bi, self.flags, self.seed = ctx, exe, bi, flags, seed
+        b = self.b = copy.copy(ctx)
+        b.work = ctx.sub("batch%d" % bi)
+        os.makedirs(os.path.join(b.work, "bin"), exist_ok=True)
+        shutil.copy(exe, os.path.join(b.work, "bin", "tars2go"))
+        self.h = gobuild.stage_harness(b)
+        self.progs = {bi * 1000 + i: idlgen.assign_uids(p) for i, p in enumerate(progs)}
+        self.ev = {"programs": len(progs), "flags": flags, "elements_removed_as_failing": 0, "programs_dropped": 0}
+        self.nscratch = 0
+
+    def text(self, k, prog=None):
+        return idlgen.ProgramText(prog if prog is not None else self.progs[k], k, self.seed)
+
+    def scratch(self, name):
+        self.nscratch += 1
+        return "%s/%s_%d" % (name, name, self.nscratch)
+
+    def generate_alone(self, items, sub):
+        """items: [(label, k, prog)]: each program through the binary on its own.  Returns {label: (rc, out, secs, timed_out, outdir)}"""
+        h = self.h
+        jobs = []
+        for label, k, prog in items:
+            d = os.path.join(h, self.scratch(sub + "-idl"))
+            pt = self.text(k, prog)
+            write_program(d, pt)
+            od = self.scratch(sub)
+            jobs.append((label, k, pt, d, od))
+
+        def one(j):
+            label, k, pt, d, od = j
+            rc, out, secs, to = run_tool(self.exe, ["-outdir=" + od + "/", "-module=verifharness"] + self.flags +
+                                         [os.path.relpath(os.path.join(d, pt.fname["B"]), h), os.path.relpath(os.path.join(d, "P%dx.tars" % k), h)], h, 10)
+            return label, (rc, out, secs, to, od)
+
+        with ThreadPoolExecutor(max_workers=8) as ex:
+            return dict(ex.map(one, jobs))
+
+    def isolate(self, failing, fails):
+        """failing: {k: failure class}.  Every removable element of each failing program is tried on its own (one generator
+        run each; `fails(results) -> {label: class}` decides, possibly with one go build over all of them).  Returns {k: [uid]}."""
+        items = []
+        for k in failing:
+            items.append(((k, 0), k, idlgen.only(self.progs[k], 0)))      # the bare skeleton: is the failure about an element at all?
+            for uid in idlgen.element_uids(self.progs[k]):
+                items.append(((k, uid), k, idlgen.only(self.progs[k], uid)))
+        res = self.generate_alone(items, "isolate")
+        cls = fails(res)
+        out = {k: [] for k in failing}
+        # an element is a culprit when the program reduced to it fails (with whatever message: alone, the same defect may
+        # surface as a different first error); if the bare skeleton fails too, the failure is not about an element
+        skeleton = {k for (k, uid), c in cls.items() if uid == 0}
+        for (k, uid), c in sorted(cls.items()):
+            if uid != 0 and k not in skeleton:
+                out[k].append((uid, c))
+        for k in skeleton:
+            out[k] = None
+        return out
+
+    def report(self, kind, k, cls, culprits, detail, extra):
+        """kind: valid-rejected | valid-does-not-compile | hang; cls: failure class of the whole program; culprits: [(uid, class
+        of the program reduced to that element)], [] (no single element reproduces it) or None (the bare skeleton fails)."""
+        prog = self.progs[k]
+        pt = self.text(k)
+        pt.module_text("A"), pt.module_text("B")
+        strip = lambda c: c.split(":", 1)[1] if c.startswith("rejected:") else c
+        if culprits:
+            todo = [(strip(c), pt.feature.get(u, "?"), idlgen.only(prog, u)) for u, c in culprits]
+        elif culprits is None:
+            todo = [(strip(cls), "any-program", idlgen.only(prog, 0))]
+        else:
+            todo = [(strip(cls), "whole-program", prog)]
+        for c, feat, small in todo:
+            spt = self.text(k, small)
+            self.ctx.violate("C16:%s:%s:%s" % (kind, c, feat), detail,
+                             dict(extra, minimal_files={spt.fname[m]: spt.module_text(m) for m in ("A", "B")}, flags=self.flags))
+        if culprits:
+            self.progs[k] = idlgen.without(prog, {u for u, _ in culprits})
+            self.ev["elements_removed_as_failing"] += len(culprits)
+        else:
+            del self.progs[k]
+            self.ev["programs_dropped"] += 1
+
+    def run(self):
+        ctx, b, h, ev = self.ctx, self.b, self.h, self.ev
+        schema = None
+        for rnd in range(5):
+            # ---- the generator terminates with exit 0 on every program of the batch
+            res = self.generate_alone([(k, k, None) for k in sorted(self.progs)], "alone")
+            failing = {}
+            for k, (rc, out, secs, to, od) in res.items():
+                if to:
+                    failing[k] = "hang"
+                elif rc != 0:
+                    failing[k] = "rejected:" + diag_class(out)
+            if failing:
+                def fails(r):
+                    return {lab: ("hang" if x[3] else "rejected:" + diag_class(x[1])) for lab, x in r.items() if x[3] or x[0] != 0}
+                culprits = self.isolate(failing, fails)
+                for k, cls in sorted(failing.items()):
+                    out = res[k][1]
+                    if cls == "hang":
+                        self.report("hang", k, "valid-program", culprits[k] and [(u, "valid-program") for u, _ in culprits[k]], "tars2go does not terminate within 10 s on a valid program", {})
+                    else:
+                        self.report("valid-rejected", k, cls.split(":", 1)[1], culprits[k],
+                                    "tars2go rejects a valid program: %s" % (out.strip().splitlines() or [""])[-1][:200], {"output": out[-500:]})
+                shutil.rmtree(os.path.join(h, "isolate"), ignore_errors=True)
+                continue
+            # ---- one generator run and one go build for the whole batch
+            shutil.rmtree(os.path.join(h, "gen"), ignore_errors=True)
+            idl = os.path.join(h, "pidl%d" % rnd)
+            files = []
+            for k in sorted(self.progs):
+                pt = self.text(k)
+                write_program(idl, pt)
+                files += [os.path.join(idl, pt.fname["B"])] if (k % 2) else [os.path.join(idl, pt.fname["A"]), os.path.join(idl, pt.fname["B"])]
+            if not files:
+                break
+            t0 = time.time()
+            _, schema = codecgen.stage(b, idl_files=files, with_res=False, extra_tars2go=self.flags)
+            ev["batch_generate_s"] = round(time.time() - t0, 2)
+            if ev["batch_generate_s"] > 10:
+                ctx.violate("C16:slow:batch", "tars2go needed %.1f s for a batch of %d valid programs" % (ev["batch_generate_s"], len(self.progs)), {})
+            rc, so, se = gobuild.tars2go(b, [os.path.join(idl, "P%dx.tars" % k) for k in sorted(self.progs)], "gen", "verifharness", cwd=h, timeout=30, extra=self.flags)
+            if rc != 0:
+                raise Inconclusive("tars2go failed on the extras files after passing them one by one:\n%s" % (so + se)[-1500:])
+            t0 = time.time()
+            ok, badpk = go_build(h, "./gen/...")
+            ev["go_build_s"] = round(time.time() - t0, 2)
+            if ok:
+                break
+            failing, errs = {}, {}
+            for pkg, err in badpk.items():
+                m = re.search(r"(\d+)$", os.path.basename(pkg))
+                k = int(m.group(1)) if m else None
+                if k not in self.progs:
+                    raise Inconclusive("cannot attribute a compile error to a program: %s\n%s" % (pkg, err))
+                failing.setdefault(k, go_error_class(err))
+                errs[k] = errs.get(k, "") + err
+
+            def fails(r):
+                for lab, x in r.items():
+                    if x[0] != 0 or x[3]:
+                        raise Inconclusive("an element of an accepted program is rejected on its own: %s" % x[1][-300:])
+                ok2, bad2 = go_build(h, "./isolate/...")
+                out = {}
+                for lab, x in r.items():
+                    for pkg, e in bad2.items():
+                        if pkg.startswith(x[4] + os.sep):
+                            out.setdefault(lab, go_error_class(e))
+                return out
+
+            culprits = self.isolate(failing, fails)
+            for k, cls in sorted(failing.items()):
+                self.report("valid-does-not-compile", k, cls, culprits[k],
+                            "the Go code tars2go emits for a valid program does not compile: %s" % errs[k].splitlines()[0][:240], {"go_errors": errs[k][:1500]})
+            shutil.rmtree(os.path.join(h, "isolate"), ignore_errors=True)
+        else:
+            raise Inconclusive("batch %d: still failing after removing the failing elements 5 times" % self.bi)
+        for dname in ("alone", "alone-idl", "isolate-idl"):
+            shutil.rmtree(os.path.join(h, dname), ignore_errors=True)
+        ev["programs_judged"] = len(self.progs)
+        if not self.progs or schema is None:
+            return ev, None
+        ev.update({"struct_types": len(schema["order"]), "interfaces": len(schema["interfaces"]),
+                   "functions_compiled": sum(len(v) for v in schema["interfaces"].values())})
+
+        ev["enum_constants"] = self.enum_check()
+
+        # ---- the generated codecs against the IDL's meaning
+        drv = gobuild.build(b, "codecdrive")
+        nsh = 6
+        d, last = codecfam.run_driver(b, drv, "structs", "enc", ["-shards", str(nsh), "-per", str(ctx.pick(6, 25))])
+        n_enc = int(last.split()[0])
+        shards = sorted(glob.glob(os.path.join(d, "enc_*.ndjson")))
+        extra = {"schemas.json": codecgen.schemas_json(schema)}
+        res = oracle.judge(b, "TarsSchema", "Oracle_Schema", "Oracle.cfg", shards, par=nsh, timeout=3000, extra_files=extra,
+                           deps=codecfam.DEPS, name="schema%d" % self.bi)
+        if res["total"] != n_enc:
+            raise Inconclusive("schema oracle judged %d of %d records" % (res["total"], n_enc))
+        for p, i, r in res["bad"]:
+            kind = "panic" if r.get("panic") else ("write-error" if r["werr"] else ("decode-error" if not r["dec_ok"] else "mismatch"))
+            ctx.violate("C16:generated-codec:%s:%s" % (kind, r["k"]),
+                        "generated codec of %s: encoding is not the well-formed encoding of the value, or the generated decoder does not "
+                        "return it (%s)" % (r["s"], kind), {"record": r, "struct": struct_shape(schema, r["s"]), "idl": self.idl_of(r["s"])})
+        d2, last2 = codecfam.run_driver(b, drv, "mutants", "mut", ["-shards", str(nsh), "-per", str(ctx.pick(1, 3)),
+                                                                    "-classes", "extra,absent,prefix,inflate,subst", "-cap", str(ctx.pick(3, 6))])
+        mshards = sorted(glob.glob(os.path.join(d2, "mut_*.ndjson")))
+        total, bad, states, gen = codecfam.judge_dec(b, schema, mshards, "dec%d" % self.bi, par=nsh)
+        known_seen = {}
+        # structs whose generated ENCODER is already known to be wrong (its output is the raw material of the mutants)
+        enc_bad = {r["s"] for _, _, r in res["bad"]}
+        for why, r in bad:
+            if why == "reference-vs-expected" and r["cls"] == "valid":
+                enc_bad.add(r["s"])
+                ctx.violate("C16:generated-codec:encoding-not-the-value:valid",
+                            "generated WriteTo of %s: the reference does not decode its output to the value written" % r["s"],
+                            {"record": r, "struct": struct_shape(schema, r["s"]), "idl": self.idl_of(r["s"])})
+        for why, r in bad:
+            if why == "reference-vs-expected":
+                if r["s"] in enc_bad or any(dep in enc_bad for dep in struct_deps(schema, r["s"])):
+                    continue
+                raise Inconclusive("reference decoder disagrees with the value the harness built (%s %s)" % (r["cls"], r["s"]))
+            sigs = codec_signatures(why, r, schema)
+            hit = [x for x in sigs if x in known_codec_open()]
+            if hit or why == "alloc" or (why == "panic" and codecfam.panic_class(r["panic"]) == "out-of-memory"):
+                key = hit[0] if hit else "C05:allocation"
+                known_seen[key] = known_seen.get(key, 0) + 1
+                continue
+            if r["k"] == "decr" and not r.get("fok"):
+                continue        # the fresh decode of the same bytes is judged by its own record
+            ctx.violate("C16:generated-codec:%s:%s%s%s" % (why, r["cls"], (":" + r["note"]) if r.get("note") else "", ":reused" if r["k"] == "decr" else ""),
+                        "%s input for generated struct %s (%s): real decoder %s, reference: %s"
+                        % (r["cls"], r["s"], r.get("note", ""), "ok" if r["ok"] else "error/panic " + r["panic"][:80], why),
+                        {"record": r, "candidate_signatures": sigs, "idl": self.idl_of(r["s"])})
+        parts = last2.split(" ", 3)
+        ev.update({"enc_records": res["total"], "dec_records": total, "oracle_states": res["states"] + states,
+                   "oracle_transitions": res["generated"] + gen, "known_codec_findings_seen": known_seen,
+                   "mutant_classes": parts[3] if len(parts) > 3 else ""})
+        return ev, {"ctx": b, "schema": schema, "shards": shards, "extra": extra, "enc_bad": enc_bad,
+                    "texts": [self.text(k).module_text("A") for k in sorted(self.progs)]}
+
+    def enum_check(self):
+        """The value of every generated enum constant, read from the emitted Go source, judged by Oracle_Enum."""
+        up = lambda n: n[:1].upper() + n[1:]
+        recs = []
+        for k in sorted(self.progs):
+            pt = self.text(k)
+            consts = {}
+            for mod in ("A", "B"):
+                for path in glob.glob(os.path.join(self.h, "gen", pt.modname[mod], "*.go")):
+                    for m in re.finditer(r"^\s*(\w+)\s+\w+\s*=\s*(-?\d+)\s*$", open(path).read(), re.M):
+                        consts[(mod, m.group(1))] = int(m.group(2))
+            for i, e in enumerate(self.progs[k]["enums"]):
+                decl = [{"k": "auto" if kind == "auto" else "num", "v": 0 if kind == "auto" else val} for kind, val in pt.enum_values[i]]
+                got = [consts.get((e["mod"], "%s_%s" % (up(pt.enum_names[i]), up(nm))), 12345678) for nm in pt.enum_members[i]]
+                recs.append({"enum": "%s.%s" % (pt.modname[e["mod"]], pt.enum_names[i]), "decl": decl, "got": got})
+        if not recs:
+            return {"enums": 0}
+        d = self.b.sub("enum-oracle")
+        path = os.path.join(d, "recs.ndjson")
+
+        def judge(rs, name):
+            with open(path, "w") as f:
+                for r in rs:
+                    f.write(json.dumps(r) + "\n")
+            total, bad, _ = oracle.judge_file(self.b, SPEC, "Oracle_Enum", "OracleEnum.cfg", path, name)
+            return bad
+
+        bad = judge(recs, "enum%d" % self.bi)
+        for i in bad:
+            r = recs[i - 1]
+            shape = ",".join(x["k"] for x in r["decl"])
+            self.ctx.violate("C16:generated-enum-value:%s" % ("implicit-after-explicit" if "num,auto" in shape else "wrong-constant"),
+                             "enum %s: generated constants %s for declaration %s" % (r["enum"], r["got"], r["decl"]), {"record": r})
+        # self-test: a falsified constant must be rejected
+        cor = json.loads(json.dumps(recs[:3]))
+        cor[0]["got"][-1] += 1
+        if judge(cor, "enum-selftest") != [1]:
+            raise Inconclusive("enum oracle self-test failed")
+        return {"enums": len(recs), "rejected": len(bad), "selftest_falsified_constant_rejected": True}
+
+    def idl_of(self, q):
+        mod = q.split(".")[0]
+        for k in self.progs:
+            pt = self.text(k)
+            for m in ("A", "B"):
+                if pt.modname[m] == mod:
+                    return pt.module_text(m)
+        return ""
+
+
+def batch(ctx, exe, bi, progs, flags, seed):
+    return Batch(ctx, exe, bi, progs, flags, seed).run()
+
+
+def struct_deps(schema, q, seen=None):
+    """structs reachable from q through member types"""
+    seen = seen if seen is not None else set()
+
+    def walk(ty):
+        if ty["k"] == "struct" and ty["name"] not in seen:
+            seen.add(ty["name"])
+            struct_deps(schema, ty["name"], seen)
+        for f in ("el", "key", "val"):
+            if f in ty:
+                walk(ty[f])
+
+    for m in schema["structs"].get(q, []):
+        walk(m["ty"])
+    return seen
 
 
 def struct_shape(schema, q):
@@ -779,19 +1015,6 @@ def tshape(ty):
     return k
 
 
-def idl_of(pts, q):
-    mod = q.split(".")[0]
-    for k, (p, pt) in pts.items():
-        for m in ("A", "B"):
-            if pt.modname[m] == mod:
-                return open_text(pt, m)
-    return ""
-
-
-def open_text(pt, m):
-    return "(module %s of program %d; see minimal files in the scratch directory)" % (pt.modname[m], pt.k)
-
-
 def schema_selftest(ctx, bres):
     """Flip optional -> require in the extracted schema of one generated struct: the oracle must then reject records of
     that struct (and only of structs that contain it), i.e. the generated code is judged against the IDL's meaning."""
@@ -800,8 +1023,9 @@ def schema_selftest(ctx, bres):
     by = {}
     for r in recs:
         by.setdefault(r["s"], []).append(r)
-    cands = sorted(((sum(1 for m in ms if not m["req"]), q) for q, ms in schema["structs"].items() if q in by), reverse=True)
-    for nopt, q in cands[:6]:
+    cands = sorted(((sum(1 for m in ms if not m["req"]), q) for q, ms in schema["structs"].items()
+                    if q in by and q not in bres["enc_bad"] and not (struct_deps(schema, q) & bres["enc_bad"])), reverse=True)
+    for nopt, q in cands[:10]:
         if nopt == 0:
             break
         cor = json.loads(json.dumps({"structs": schema["structs"]}))
@@ -817,6 +1041,9 @@ def schema_selftest(ctx, bres):
         if not bad0 and bad1:
             return {"struct": q, "optional_members_flipped": nopt, "records": total, "rejected_with_corrupted_schema": len(bad1),
                     "rejected_with_extracted_schema": 0}
+    if ctx.violations:
+        # with a generator this broken there is no struct whose records are accepted to begin with
+        return {"skipped": "no generated struct with optional members passes the oracle under the extracted schema; violations are reported"}
     raise Inconclusive("schema self-test: flipping optional to require in the extracted schema was not noticed by the oracle")
 
 
@@ -840,15 +1067,10 @@ def run(ctx):
     nprog = ctx.pick(40, 600)
     nb = ctx.pick(2, 6)
     progs, sim_states = sample_programs(ctx, nprog, ctx.seed, ctx.pick(2, 3))
-    flagsets = [[], ["-without-trace=true", "-add-servant=false", "-json-omitempty", "-dispatch-reporter"]]
+    flagsets = [[], makefile_flags()[:2] + ["-json-omitempty"]]     # the default flags / the flags the framework's own Makefile uses
     per = (nprog + nb - 1) // nb
     fb = [pool.submit(batch, ctx, exe, bi + 1, progs[bi * per:(bi + 1) * per], flagsets[bi % 2], ctx.seed) for bi in range(nb)]
-    # valid texts for the mutation corpus of clause 2
-    vt = []
-    for i, p in enumerate(progs[:40]):
-        pt = idlgen.ProgramText(p, 9000 + i, random.Random(ctx.seed + i))
-        vt.append(pt.module_text("A"))
-    f2 = pool.submit(clause2, ctx, exe, vt)
+    f2 = pool.submit(clause2, ctx, exe)
 
     c3 = f3.result()
     bevs, bres = [], []
@@ -857,10 +1079,15 @@ def run(ctx):
         bevs.append(ev)
         if br:
             bres.append(br)
-    c2 = f2.result()
-    if not bres:
+    c2, tok_texts = f2.result()
+    if not bres and not ctx.violations:
         raise Inconclusive("no program of the family got as far as the codec oracles")
-    st_schema = schema_selftest(ctx, bres[0])
+    # raw inputs: mutation corpus = programs that went through generator and compiler (module A files stand alone) and the
+    # accepted token-level programs
+    corpus = [t for br in bres for t in br["texts"]][:60] + tok_texts[:: max(1, len(tok_texts) // 150)]
+    fraw = pool.submit(clause2_raw, ctx, exe, corpus)
+    st_schema = schema_selftest(ctx, bres[0]) if bres else {"skipped": "every sampled program was rejected or did not compile; violations are reported"}
+    craw = fraw.result()
     rmc = tlc.require_clean(fmc.result(), "MC_IdlGrammar")
     rmc2 = tlc.require_clean(fmc2.result(), "MC_IdlPrograms")
     judged = sum(e.get("programs_judged", 0) for e in bevs)
@@ -871,11 +1098,11 @@ def run(ctx):
         for k, v in e.get("known_codec_findings_seen", {}).items():
             known[k] = known.get(k, 0) + v
     ctx.coverage = {
-        "states": rmc.distinct + rmc2.distinct + c2["gen_states"] + c2["oracle_states"] + sum(e.get("oracle_states", 0) for e in bevs),
+        "states": rmc.distinct + rmc2.distinct + c2["gen_states"] + c2["oracle_states"] + craw["oracle_states"] + sum(e.get("oracle_states", 0) for e in bevs),
         "transitions": rmc.generated + rmc2.generated + sim_states + c2["gen_transitions"] + c2["oracle_transitions"] + sum(e.get("oracle_transitions", 0) for e in bevs),
-        "traces_validated_against_impl": c2["runs"] + enc + dec + c3["files_compared"],
+        "traces_validated_against_impl": c2["runs"] + craw["raw_inputs"] + enc + dec + c3["files_compared"],
         "samples": [c2["sample"]],
-        "evaluations": c2["runs"] + enc + dec + c3["files_compared"],
+        "evaluations": c2["runs"] + craw["raw_inputs"] + enc + dec + c3["files_compared"],
         "distinct_nontrivial": c2["token_tests"] + judged,
         "rule": "clause 1: %d programs sampled by TLC's simulator from IdlPrograms (seed %d), %d batches; per generated struct type random values "
                 "-> real WriteTo/ReadFrom judged by Oracle_Schema, mutants (extra, absent, prefix, inflate, subst) judged by Oracle_Dec; "
@@ -885,7 +1112,7 @@ def run(ctx):
         "mc_programs_tiny_instance": {"distinct": rmc2.distinct, "generated": rmc2.generated},
         "program_sampling_states": sim_states,
         "clause1_batches": bevs, "clause1_programs_judged": judged, "clause1_known_codec_findings_seen": known,
-        "clause2": {k: v for k, v in c2.items() if k != "sample"},
+        "clause2": {k: v for k, v in c2.items() if k != "sample"}, "clause2_raw": craw,
         "clause3": c3,
         "selftest_corrupted_schema": st_schema,
         "selftest_corrupted_records": c2["selftest_falsified_observations"],
